@@ -527,3 +527,5 @@ def run(ctx):
   r3_no_ambient_state(ctx)
   r4_set_iteration(ctx)
   r5_nondeterminism(ctx)
+  from sa.rules import shared  # pylint: disable=g-import-not-at-top
+  shared.rule_single_traversal(ctx, 'C14.R6', ['quantizer:Quantizer.calibrate', 'quantizer:Quantizer.validate', 'model_validator:compare_model', 'calibrator:Calibrator.calibrate'])
